@@ -37,10 +37,13 @@
       number, string, the same rows in the same order, or both an error
       ([C14_query_depends_on_tree_only]; [C14_query_depends_on_tree_only_partial] is the earlier
       statement for predicate-free location paths, with the context returned unchanged).
-    NOT proved here: that a fresh parse of the serialisation yields the same tree (C15 / C04:
-    [same_tree] of the two tables is a hypothesis of the last theorem; it fails exactly where C15 has
-    its findings, e.g. a text node without characters, [C14_example_empty_text_DD3]), and the
-    expressions C05 does not support (namespace axis, id(), ...).  Those stay
+    That a fresh parse of the serialisation yields the same tree is C15 / C04: [same_tree] of the
+    two tables is a hypothesis of [C14_query_depends_on_tree_only]; it is DISCHARGED in the last
+    section of this file ([C14_query_on_reparse], builder c15b: Proofs/StoreIso*.v,
+    Properties/C15.v) for every edited document outside C15's listed findings ([Known15]; it
+    fails exactly there, e.g. a text node without characters, [C14_example_empty_text_DD3]) and
+    every store that denotes the document the parser returns for the print.
+    NOT proved here: the expressions C05 does not support (namespace axis, id(), ...).  Those stay
     tested by the [Q] operations of checks/C14.py (queries on the edited document against a
     re-parse, as pre-order ranks).  Trusted: that [xdoc_of_store] is the table the harness would dump for the real
     document -- its ingredients ([parent_node], [child_view], [key], [owner_element], attribute
@@ -395,3 +398,36 @@ Print Assumptions C14_refined_nodesets_depend_on_tree_only.
 Print Assumptions C14_same_tree_same_paths_partial.
 Print Assumptions C14_view_is_real_dump.
 Print Assumptions C14_example_hypotheses.
+
+(** ** the second sentence with its last hypothesis discharged (C15, C04)
+
+    [s1]: an edited document of a reachable world outside C15's findings ([Known15 s1 = false],
+    Model/StoreDoc.v); its print [show_doc s1] is accepted by the parser model and gives [d']
+    (C15_edited_roundtrip_reachable shows that it is, and that [d'] is [doc_of_store s1]);
+    [s2]: ANY store with the invariants that denotes [d'] -- what the store of the re-parse is
+    (no Coq function builds a store from a parsed document; for a concrete table the equation
+    [doc_of_store s2 = d'] is decided by computation, see C14_query_on_reparse_example in
+    Properties/C15.v).  [FactsBy]: the string facts of both tables are the same functions of the
+    denoted attribute / value piece.  Conclusion: every supported expression has the same value on
+    the two tables, the value XPath 1.0 prescribes. *)
+From XmlRs Require Import Model.Info Model.Display Model.StoreDoc Proofs.DomPrintable Proofs.DomL1RefineInv
+  Proofs.StoreDocInv Proofs.StoreDocPiFlag Proofs.StoreIsoDoc Proofs.StoreIsoQuery.
+
+Theorem C14_query_on_reparse :
+  forall (F1 F2 : sfacts) fa fr (merged : bool) (init : world) (ops : list op) (k : N) (s1 s2 : store) (d' : document),
+  WGood init -> WInv2 init -> WLex15 init -> WPiFlag init ->
+  Forall op_facts_ok ops -> Forall op_facts_ok15 ops ->
+  doc_at (run init ops) k = Some s1 -> Known15 s1 = false ->
+  pipeline_parse (show_doc s1) = OOk ([], d') ->
+  TreeInv s2 -> OrderInv s2 -> Lex15 s2 -> PiFlagOk s2 -> doc_of_store s2 = d' ->
+  FactsBy fa fr F1 s1 -> FactsBy fa fr F2 s2 ->
+  forall (c1 c2 : ctx) (e : expr),
+    c_ns c1 = c_ns c2 -> get_position c1 = get_position c2 -> get_size c1 = get_size c2 ->
+    ns_lookup (c_ns c1) None = None -> supported (c_ns c1) e ->
+    value_abs (fst (query (xdoc_of_store F1 merged s1) e c1)) =
+    value_abs (fst (query (xdoc_of_store F2 merged s2) e c2)) /\
+    value_abs (fst (query (xdoc_of_store F1 merged s1) e c1)) =
+    spec_query (xdoc_of_store F1 merged s1) (c_ns c1) (get_position c1) (get_size c1) e.
+Proof. exact query_on_reparse. Qed.
+
+Print Assumptions C14_query_on_reparse.
